@@ -331,6 +331,8 @@ impl VersionSet {
             Ok(reader) => reader,
             Err(error) => return Err(RecoverError::ManifestRead(error)),
         };
+        // Every record of the manifest is needed to rebuild the current version
+        manifest_reader.set_fail_on_corruption(true);
 
         // Aggregate state from manifest file to apply back to the version set
         let mut maybe_curr_file_num: Option<u64> = None;
